@@ -1,4 +1,4 @@
-\* c3forced2
+\* intended design: DSC not a mandatory service but always offered by the generator
 SPECIFICATION Spec
 CONSTANTS
   Cand <- Cand3
